@@ -1,5 +1,5 @@
 # C08 - A decode value is indistinguishable from its JSON value in read-only jq
-import os, json, copy, collections
+import os, re, json, copy, collections
 from concurrent.futures import ThreadPoolExecutor
 import vlib
 from vlib import Inconclusive
@@ -157,11 +157,20 @@ def describe(e):
 
 
 def confirm(ctx, binp, qs, e):
-    """Re-run one rejected (value, query) pair alone (G1): the value is rebuilt from its description."""
+    """Re-run one rejected (value, query) pair alone (G1): a corpus node is decoded again from its file, any other
+    value is rebuilt from its description."""
     cp = os.path.join(ctx.build, 'confirm_cases.ndjson'); ep = os.path.join(ctx.build, 'confirm_events.ndjson')
     write_cases(cp, collections.OrderedDict([(e['q'], e['text'])]), [e['v']])
-    ctx.run([binp, 'eval', cp, ep], check=True, timeout=300)
+    m = re.match(r'(/.*) -d (\S+) (\[.*\])$', e['src'])
+    if m:
+        jp = os.path.join(ctx.build, 'confirm_job.ndjson')
+        vlib.write_ndjson(jp, [dict(file=m.group(1), format=m.group(2), picks=[], paths=[json.loads(m.group(3))])])
+        ctx.run([binp, 'corpus', jp, cp, ep], check=True, timeout=300)
+    else:
+        ctx.run([binp, 'eval', cp, ep], check=True, timeout=300)
     evs = vlib.read_ndjson(ep)
+    if not evs:
+        return e, None
     rej, _ = tv_view(ctx, evs, 'tv_confirm', demo=True)
     return evs[0], rej.get(0)
 
@@ -204,7 +213,7 @@ def corpus_jobs(ctx, binp):
     for f in files:
         byfam[corpusarm.family(f)].append(f)
     pick = []
-    per = 3 if th else 1
+    per = 10 if th else 1
     fams = sorted(byfam)
     if not th:
         ctx.rng.shuffle(fams)
@@ -243,7 +252,7 @@ def run(ctx):
     e1 = os.path.join(ctx.build, 'view_gen_events.ndjson')
     ctx.run([binp, 'eval', cpath, e1], check=True, timeout=1200)
     e2 = os.path.join(ctx.build, 'view_rand_events.ndjson')
-    r = ctx.run([binp, 'rand', str(1500 if th else 200), cpath, e2], check=True, timeout=2400)
+    r = ctx.run([binp, 'rand', str(3000 if th else 200), cpath, e2], check=True, timeout=2400)
     skipped = json.loads(r.stdout.strip().splitlines()[-1])['skipped']
     jobs, navail = corpus_jobs(ctx, binp)
     jp = os.path.join(ctx.build, 'view_corpus_jobs.ndjson')
